@@ -396,7 +396,8 @@ type c17Gen struct {
 	files map[string]string
 }
 
-func c17Check(c *ev.Collector, env *pluginEnv, k c17Case) *c17Gen {
+// c17Tags are the deviation tags of a case (known-finding signatures).
+func c17Tags(k c17Case) []string {
 	tags := []string{"plugin"}
 	if k.Package == "" {
 		tags = append(tags, "no-package")
@@ -410,6 +411,27 @@ func c17Check(c *ev.Collector, env *pluginEnv, k c17Case) *c17Gen {
 			}
 		}
 	}
+	// names derived from one service that equal names derived from another (or from the import path)
+	for _, a := range k.Services {
+		for _, b := range k.Services {
+			if a.Name != b.Name && (b.Name == "New"+a.Name || b.Name == "Unimplemented"+a.Name) {
+				tags = append(tags, "derived-names-collide")
+			}
+		}
+		if k.GoTail != "" && strings.EqualFold(k.GoTail, a.Name+"Client") {
+			tags = append(tags, "derived-names-collide")
+		}
+	}
+	for _, a := range k.Services {
+		if lc := strings.ToLower(a.Name); lc == "http" {
+			tags = append(tags, "client-type-named-like-parameter")
+		}
+	}
+	return tags
+}
+
+func c17Check(c *ev.Collector, env *pluginEnv, k c17Case) *c17Gen {
+	tags := c17Tags(k)
 	bad := false
 	viol := func(clause, outcome, format string, args ...any) {
 		bad = true
@@ -632,7 +654,7 @@ func c17Compile(c *ev.Collector, env *pluginEnv, batch []*c17Gen) {
 		seen[id] = true
 		for _, g := range batch {
 			if g.k.ID == id {
-				c.Violation("TestC17", "type-checks", "compile-error", []string{"plugin"}, g.k, "%s: generated code does not compile against the library: %s", g.k.key(), m[0])
+				c.Violation("TestC17", "type-checks", "compile-error", c17Tags(g.k), g.k, "%s: generated code does not compile against the library: %s", g.k.key(), m[0])
 			}
 		}
 	}
@@ -661,6 +683,17 @@ func c17Cases(thorough bool) (out []c17Case) {
 				}
 			}
 		}
+		// service names whose derived identifiers meet the constructors' parameters, each other, or the import alias
+		for _, svcs := range [][]string{{"Http"}, {"HTTP"}, {"Opts"}, {"BaseURL"}, {"Svc"}, {"Order", "NewOrder"}, {"Thing", "UnimplementedThing"}} {
+			var ss []c17Service
+			for _, n := range svcs {
+				ss = append(ss, c17Service{Name: n, Methods: []c17Method{{Name: "Do"}, {Name: "Up", ClientStream: true}}})
+			}
+			id++
+			out = append(out, c17Case{ID: id, Package: "a.b.v1", Services: ss})
+		}
+		id++
+		out = append(out, c17Case{ID: id, Package: "a.b.v1", GoTail: "gatewayClient", Services: []c17Service{{Name: "Gateway", Methods: []c17Method{{Name: "Do"}}}}})
 		// fully-qualified names longer than any line the generator would wrap to
 		longPkg := "com.example.platform.infrastructure.services.internal.accounting.reconciliation.settlement.v1alpha1"
 		for _, depr := range []bool{false, true} {
